@@ -11,6 +11,7 @@
 EXTENDS StoreOps, TLC, Json, IOUtils
 
 Batch == ndJsonDeserialize(IOEnv.TRACE_FILE)
+Devs  == LET d == JsonDeserialize(IOEnv.DEVS_FILE) IN {d[i] : i \in 1..Len(d)}
 
 VARIABLES k,        \* index of the trace being validated
           l,        \* index of the next event of that trace
@@ -83,6 +84,13 @@ OpVerdict(s, e) ==
 (* the dataset-level view of the default graph: the union when default_union *)
 DView(G, c, n) == IF n = DEFAULT /\ c.default_union THEN GUnion(G) ELSE GGet(G, n)
 
+(* a quad pattern that names a graph is answered from that graph alone.  KF_C02_quads_graph_pattern: ConjunctiveGraph.quads() reports, for a
+   triple that matches in the graph asked for, every graph that holds the same triple (pinned by the repository's test_aggregate2) *)
+QuadPat(G, c, n, p) == {<<t[1], t[2], t[3], n>> : t \in Sel(DView(G, c, n), p)}
+QuadPatDev(G, c, n, p) == UNION {{<<t[1], t[2], t[3], m>> : m \in {kk \in DOMAIN G : t \in G[kk]}} : t \in Sel(DView(G, c, n), p)}
+(* the graphs that hold a triple *)
+GraphsOf(G, t) == {n \in DOMAIN G : t \in G[n]}
+
 ViewVerdict(G, v) ==
   LET T == GGet(G, v.g) IN
   IF Has(v, "len") /\ v.len # Cardinality(T) THEN "LenAgrees"
@@ -118,6 +126,9 @@ ObsVerdict(s, c, o) ==
   ELSE IF Has(o, "union") /\ \E i \in 1..Len(o.union) :
             SeqToSet(o.union[i].r) # Sel(DView(G, c, DEFAULT), o.union[i].p) THEN "UnionView"
   ELSE IF Has(o, "union") /\ \E i \in 1..Len(o.union) : ~NoDup(o.union[i].r) THEN "NoDuplicates"
+  ELSE IF Has(o, "quadq") /\ \E i \in 1..Len(o.quadq) :
+            SeqToSet(o.quadq[i].r) # (IF "KF_C02_quads_graph_pattern" \in Devs THEN QuadPatDev(G, c, o.quadq[i].g, o.quadq[i].p) ELSE QuadPat(G, c, o.quadq[i].g, o.quadq[i].p)) THEN "QuadPattern"
+  ELSE IF Has(o, "gof") /\ \E i \in 1..Len(o.gof) : SeqToSet(o.gof[i].r) # GraphsOf(G, Tup3(o.gof[i].t)) THEN "GraphsOfTriple"
   ELSE IF Has(o, "ulen") /\ o.ulen # Cardinality(GUnion(G)) THEN "LenAgrees"
   ELSE "ok"
 
